@@ -42,6 +42,14 @@ def gen_cases(tier, seed):
                 for mode in ("ack", "unack"):
                     i += 1
                     cases.append({"t": "fuzz", "side": side, "target": target, "mode": mode, "seed": seed * 1_000_003 + i})
+    # directed cases: every prepared resting step receives every PDU kind as the first action (the coverage rule of finalize() must not
+    # depend on the luck of the seed)
+    for side, targets in (("S", prep.SRC_TARGETS), ("D", prep.DST_TARGETS)):
+        for target in targets:
+            for mode in ("ack", "unack"):
+                for kind in pdugen.KINDS:
+                    i += 1
+                    cases.append({"t": "fuzz", "side": side, "target": target, "mode": mode, "seed": seed * 1_000_003 + i, "first_kind": kind})
     nloop = 3000 if tier == "quick" else 60000
     for j in range(nloop):
         cases.append({"t": "loop", "seed": seed * 1_000_003 + 500_000 + j})
@@ -62,8 +70,10 @@ def full_snapshot(w, ep):
     return {"state": state_snapshot(ep.h), "queue": queue_bytes(ep.h), "tree": w.tree("src" if ep.side == "S" else "dst")}
 
 
-def rand_pdu(rng, w, ep, size):
-    if rng.random() < 0.7:
+def rand_pdu(rng, w, ep, size, force_kind=None):
+    if force_kind is not None:
+        kind = force_kind
+    elif rng.random() < 0.7:
         kind = rng.choice(["ACK_EOF", "FIN", "NAK", "NAK", "KA", "PROMPT"] if ep.side == "S" else ["MD", "FD", "FD", "FD", "EOF", "EOF", "ACK_FIN", "PROMPT"])
     else:
         kind = rng.choice(pdugen.KINDS)
@@ -147,7 +157,14 @@ def run_fuzz(case):
             r = rng.random()
             act = None
             raw = kind = desc = None
-            if r < 0.68:
+            if ai == 0 and case.get("first_kind"):
+                kind, raw, desc = rand_pdu(rng, w, ep, size, force_kind=case["first_kind"])
+                if raw is None:
+                    kind, raw, desc = rand_pdu(random.Random(case["seed"] + 1), w, ep, size, force_kind=case["first_kind"])
+                if raw is None:
+                    continue
+                act = "pdu"
+            elif r < 0.68:
                 kind, raw, desc = rand_pdu(rng, w, ep, size)
                 if raw is None:
                     continue
